@@ -226,9 +226,9 @@ func c16Controlled(out *vlib.Out, r *vlib.Rand, nops int) {
 		sort.Ints(routable)
 		sort.Ints(verifiable)
 		sort.Ints(sendable)
-		x := r.Intn(20)
+		x := r.Intn(100)
 		switch {
-		case x < 5 || (len(accs) == 0 && x < 12):
+		case x < 18 || (len(accs) == 0 && x < 50):
 			// a new Accept
 			a, id := nextA, ids[r.Intn(4)]
 			nextA++
@@ -273,11 +273,19 @@ func c16Controlled(out *vlib.Out, r *vlib.Rand, nops int) {
 			holder[id] = a
 			acc.state = "waiting"
 			record(fmt.Sprintf("A%d:%d", a, id), "wait")
-		case x < 9:
+		case x < 36:
 			// a client hello: matching, unregistered, or random/certificate of different secrets
 			h := nextH
 			nextH++
 			rnd := ids[r.Intn(5)]
+			if len(holder) > 0 && r.Chance(7, 10) {
+				var held []int
+				for id := range holder {
+					held = append(held, id)
+				}
+				sort.Ints(held)
+				rnd = held[r.Intn(len(held))]
+			}
 			cert := rnd
 			if r.Chance(1, 5) {
 				cert = ids[r.Intn(5)]
@@ -298,7 +306,7 @@ func c16Controlled(out *vlib.Out, r *vlib.Rand, nops int) {
 				}
 			}
 			record(fmt.Sprintf("H%d:%d:%d", h, rnd, cert), ans)
-		case x < 12 && len(verifiable) > 0:
+		case x < 54 && len(verifiable) > 0:
 			h := verifiable[r.Intn(len(verifiable))]
 			hs := hss[h]
 			// server side (the listener's VerifyConnection) and client side (dial.go's verifyServerCertificate)
@@ -314,7 +322,7 @@ func c16Controlled(out *vlib.Out, r *vlib.Rand, nops int) {
 				hs.stage = "done"
 				record(fmt.Sprintf("V%d", h), "drop")
 			}
-		case x < 14 && len(routable) > 0:
+		case x < 68 && len(routable) > 0:
 			h := routable[r.Intn(len(routable))]
 			hs := hss[h]
 			ch, err := l.chFromID(c16CertsOf(hs.rnd).rnd)
@@ -328,7 +336,7 @@ func c16Controlled(out *vlib.Out, r *vlib.Rand, nops int) {
 				hs.owner = a
 			}
 			record(fmt.Sprintf("R%d", h), "ch")
-		case x < 16 && len(sendable) > 0 && r.Chance(4, 5):
+		case x < 84 && len(sendable) > 0 && r.Chance(5, 6):
 			h := sendable[r.Intn(len(sendable))]
 			hs := hss[h]
 			select {
@@ -365,11 +373,11 @@ func c16Controlled(out *vlib.Out, r *vlib.Rand, nops int) {
 				fail("C16:cross-delivery", fmt.Sprintf("acceptor %d waits for secret %d but received a connection with hello-random of secret %d and certificate of secret %d", hs.owner, acc.id, hs.rnd, hs.cert))
 			}
 			checkFree(hs.owner, acc.id)
-		case x < 16 && len(sendable) > 0:
+		case x < 84 && len(sendable) > 0:
 			h := sendable[r.Intn(len(sendable))]
 			hss[h].stage = "done"
 			record(fmt.Sprintf("T%d", h), "drop")
-		case x < 19 && len(waiting) > 0:
+		case x < 94 && len(waiting) > 0:
 			a := waiting[r.Intn(len(waiting))]
 			acc := accs[a]
 			if r.Chance(1, 3) {
@@ -652,7 +660,7 @@ func c16Concurrent(out *vlib.Out, r *vlib.Rand, n int) {
 // sessions over the real pion stack (net.Pipe): same secret works and is a faithful byte stream,
 // different secrets do not complete the handshake
 
-func c16Session(out *vlib.Out, r *vlib.Rand, sameSecret bool) {
+func c16Session(out *vlib.Out, r *vlib.Rand, sameSecret bool, forceHbEqual bool) {
 	server, client := net.Pipe()
 	sSecret := 300 + r.Intn(1000)
 	cSecret := sSecret
@@ -704,7 +712,7 @@ func c16Session(out *vlib.Out, r *vlib.Rand, sameSecret bool) {
 	// client -> server: a sequence of messages of many sizes, one of them equal to the heartbeat payload
 	hb := defaultConfig.Heartbeat
 	var msgs [][]byte
-	withHbEqual := r.Chance(1, 2)
+	withHbEqual := r.Chance(1, 2) || forceHbEqual
 	nm := r.Range(3, 8)
 	for i := 0; i < nm; i++ {
 		sz := []int{1, 2, 31, 32, 33, 1000, 16384, 65535, r.Range(1, 65535)}[r.Intn(9)]
